@@ -39,7 +39,11 @@ def _oracle(args):
     bi = 0
     for e in eidlib.iter_outside_meta(b):
         t = eidlib.local(e)
-        if t in G.id_exempt or t in G.id_exempt_but_pass_to_children: continue
+        if t in G.id_exempt or t in G.id_exempt_but_pass_to_children:
+            # elements the rewriter never numbers may carry an eId of their own (other tools write <content eId="sec_1__content">, the text
+            # format allows TC{eId cell-a}): it is left alone and means nothing for the ids of what is inside
+            if rng.random() < 0.2: e.set('eId', rng.choice(['sec_1__content', 'cell-a', 'x', 'junk__intro']))
+            continue
         r = rng.random()
         if r < 0.3: e.attrib.pop('eId', None)
         elif r < 0.6: e.set('eId', rng.choice(['', 'x', 'sec_1', 'dup']))
